@@ -246,11 +246,14 @@ PROPS["C19"] = {
     "level": "fault_enumeration",
     "rule": ("Scenario = 1-4 harness upstream servers (each primary or backup, initially up or down), policy {unset, roundRobin, random, first, leastconn}, TCP or HTTP health check, 3-10 up/down flips. After each flip the harness calls the exported "
              "DoHealthCheck() (the function the periodic checker runs) and sends 3n+1 sequential uncacheable requests. Oracle per settle: only up servers answer, backups only when no primary is up, roundRobin counts differ by <= 1, nobody up -> 5xx within 10 s and nothing logged upstream, traffic flows again after recovery. "
-             "TestC19Unforced uses no forced check (4 variants, one per process): all servers down then back (TCP / HTTP check), and - after applying the same configuration a second time, as a reload that leaves the upstream unchanged - the first server fails and the periodic 5 s checker alone must move the traffic to the remaining server (primary or backup), keep it error-free once settled, and bring the first server back when it recovers (30 s allowed each). Non-trivial = a backup-only phase AND an all-down phase AND a recovery after it."),
+             "TestC19Unforced uses no forced check (4 variants, one per process): all servers down then back (TCP / HTTP check), and - after applying the same configuration a second time, as a reload that leaves the upstream unchanged - the first server fails and the periodic 5 s checker alone must move the traffic to the remaining server (primary or backup), keep it error-free once settled, and bring the first server back when it recovers (30 s allowed each). Non-trivial = a backup-only phase AND an all-down phase AND a recovery after it. "
+             "TestC19Alarm (engine P, pike's own periodic checker): the real binary with --alarm pointing at a receiver that never answers / answers after 3 s / answers / refuses (or no alarm); one server starts failing its HTTP health check (listener open), recovers, then the other one fails: within 20 s (four check periods) each time the traffic must have left the failing server and returned to the recovered one."),
     "assumptions": _NETW_ASSUME + ["the settle time between events is replaced by a forced DoHealthCheck call; the unforced variant allows 30 s for recovery"],
     "jobs": [
         {"engine": "netw", "test": "TestC19", "quick": {"shards": 16, "checks": 25, "timeout": 600, "shrinktime": "20s"}, "thorough": {"shards": 16, "checks": 1500, "timeout": 3400, "shrinktime": "60s"}},
         {"engine": "netw", "test": "TestC19Unforced", "rapid": False, "quick": {"shards": 4, "timeout": 300}, "thorough": {"shards": 4, "timeout": 600}},
+        {"engine": "proc", "needs_pike": True, "test": "TestC19Alarm", "env": {"VERIF_PORT_BASE": "9000", "VERIF_PORT_SPAN": "60"},
+         "quick": {"shards": 4, "checks": 1, "timeout": 600, "shrinktime": "1s"}, "thorough": {"shards": 8, "checks": 6, "timeout": 3400, "shrinktime": "1s"}},
     ],
 }
 PROPS["C20"] = {
